@@ -5,6 +5,9 @@ package agessh
 import (
 	"crypto"
 	"crypto/ed25519"
+	"crypto/rand"
+	"crypto/rsa"
+	"sync"
 	"encoding/hex"
 	"encoding/pem"
 	"errors"
@@ -276,4 +279,76 @@ func Harness_C14_unwrap_ssh_ed25519() {
 	fk, uerr := id.Unwrap([]*age.Stanza{st})
 	V.Reach("returned")
 	V.Assert((fk == nil) != (uerr == nil), "Unwrap returned both or neither of a file key and an error")
+}
+
+// ---------------------------------------------------------------------------
+// C20: shared SSH recipients and identities
+
+const sharedWriteMsg = "an operation on a shared recipient or identity writes to state shared between goroutines"
+
+func useSharedSSH(r age.Recipient, id age.Identity, fileKey []byte) bool {
+	st, err := r.Wrap(fileKey)
+	if err != nil {
+		return false
+	}
+	k, err := id.Unwrap(st)
+	return err == nil && string(k) == string(fileKey)
+}
+
+// Harness_C20_shared_ssh: an SSH Ed25519 recipient / identity pair used twice
+// for wrap and unwrap with every reachable memory cell tagged as shared: no
+// operation writes to one. Natively the Ed25519 pair and a freshly generated
+// RSA pair are used from 8 goroutines at once under the race detector.
+func Harness_C20_shared_ssh() {
+	fileKey := V.Bytes("fk", 16)
+	if V.Symbolic() {
+		installSSHModel()
+		V.InstallTape()
+		id, err := NewEd25519Identity(fixedKeys[0])
+		V.Assert(err == nil, "NewEd25519Identity failed")
+		r := id.Recipient()
+		V.Share("the shared recipient", r)
+		V.Share("the shared identity", id)
+		V.ShareGlobals()
+		ok := useSharedSSH(r, id, fileKey) && useSharedSSH(r, id, fileKey)
+		V.Reach("used")
+		V.Assert(ok, "operation on the shared values failed")
+		V.Assert(len(V.SharedWrites()) == 0, sharedWriteMsg)
+		return
+	}
+	id, err := NewEd25519Identity(fixedKeys[0])
+	if err != nil {
+		panic(err)
+	}
+	rk, err := rsa.GenerateKey(rand.Reader, 2048)
+	if err != nil {
+		panic(err)
+	}
+	rid, err := NewRSAIdentity(rk)
+	if err != nil {
+		panic(err)
+	}
+	r, rr := id.Recipient(), rid.Recipient()
+	var wg sync.WaitGroup
+	var mu sync.Mutex
+	bad := 0
+	start := make(chan struct{})
+	for g := 0; g < 8; g++ {
+		wg.Add(1)
+		go func() {
+			defer wg.Done()
+			<-start
+			for k := 0; k < 10; k++ {
+				if !useSharedSSH(r, id, fileKey) || !useSharedSSH(rr, rid, fileKey) {
+					mu.Lock()
+					bad++
+					mu.Unlock()
+				}
+			}
+		}()
+	}
+	close(start)
+	wg.Wait()
+	V.Reach("used")
+	V.Assert(bad == 0, sharedWriteMsg)
 }
